@@ -111,6 +111,25 @@ func dataOf(dt string, salt int) (to, value, extra string) {
 		return to, "0x0", `,"dataType":"deposit","data":{"action":"withdraw","id":"0x6b8b2a31f8f8e0c1d3f5a7b9c1d3e5f7a9b1c3d5e7f9a1b3c5d7e9f1a3b5c7d9"}`
 	case "patch":
 		return "cx0000000000000000000000000000000000000000", "0x0", `,"dataType":"patch","data":{"type":"skip_txs","data":"AQID"}`
+	// payloads that the type's own checks reject
+	case "call_nodata":
+		return to, value, `,"dataType":"call"`
+	case "call_nomethod":
+		return to, value, `,"dataType":"call","data":{"params":{"_value":"0x1"}}`
+	case "deploy_nodata":
+		return "cx0000000000000000000000000000000000000000", "0x0", `,"dataType":"deploy"`
+	case "deploy_value":
+		return "cx0000000000000000000000000000000000000000", "0x1", `,"dataType":"deploy","data":{"contentType":"application/zip","content":"0x504b0304"}`
+	case "patch_nodata":
+		return "cx0000000000000000000000000000000000000000", "0x0", `,"dataType":"patch"`
+	case "patch_badtype":
+		return "cx0000000000000000000000000000000000000000", "0x0", `,"dataType":"patch","data":{"type":"unknown_patch","data":"AQID"}`
+	case "deposit_nodata":
+		return to, value, `,"dataType":"deposit"`
+	case "neg_value":
+		return fmt.Sprintf("hx%040x", 0xbeef+salt), "-0x1", ""
+	case "neg_step":
+		return fmt.Sprintf("hx%040x", 0xbeef+salt), value, "NEGSTEP"
 	}
 	return fmt.Sprintf("hx%040x", 0xbeef+salt), value, ""
 }
@@ -132,7 +151,11 @@ func txJSON(kind, dt, from, msg string, salt int, sigB64 *string, id []byte) []b
 		return []byte(s + "}")
 	}
 	to, value, extra := dataOf(dt, salt)
-	s := fmt.Sprintf(`{"version":"0x3","from":"%s","to":"%s","value":"%s","stepLimit":"0x186a0","timestamp":"0x%x","nid":"0x1","nonce":"0x%x"%s`,
+	step := "0x186a0"
+	if extra == "NEGSTEP" {
+		step, extra = "-0x186a0", ""
+	}
+	s := fmt.Sprintf(`{"version":"0x3","from":"%s","to":"%s","value":"%s","stepLimit":"`+step+`","timestamp":"0x%x","nid":"0x1","nonce":"0x%x"%s`,
 		from, to, value, 1600000000000000+salt, nonce, extra)
 	if sigB64 != nil {
 		s += fmt.Sprintf(`,"signature":"%s"`, *sigB64)
